@@ -40,7 +40,7 @@ def gen_vrptw(rng, nmax=4, zero_times=False, neg_costs=True, dense=None):
 def gen_grid(rng, spec, tier="quick", complete=False):
     hi_all = [Fraction(n["lo"]) for n in spec["nodes"]] + [Fraction(n["hi"]) for n in spec["nodes"] if n["hi"] != "inf"]
     top = int(max(hi_all)) + 2
-    style = "complete" if complete else rng.choice(["ints", "quarters", "sparse", "ends"])
+    style = "complete" if complete else rng.choice(["ints", "quarters", "sparse", "ends", "early"])
     if style == "complete":
         pts = [Fraction(k, 4) for k in range(0, 4 * top + 1)]
     elif style == "ints":
@@ -49,6 +49,11 @@ def gen_grid(rng, spec, tier="quick", complete=False):
         pts = [Fraction(k, 4) for k in range(0, 4 * top + 1) if rng.random() < 0.5]
     elif style == "sparse":
         pts = [Fraction(rng.randint(0, 4 * top), 4) for _ in range(rng.randint(1, 5))]
+    elif style == "early":
+        # a short grid: every point lies before the window start of some node (that node then has no admissible arrival time)
+        los = sorted(Fraction(n["lo"]) for n in spec["nodes"][1:] if Fraction(n["lo"]) > 0)
+        cut = rng.choice(los) if los else Fraction(1)
+        pts = [Fraction(k, 4) for k in range(0, int(4 * cut)) if rng.random() < 0.6] or [Fraction(0)]
     else:
         pts = sorted(set(hi_all + [Fraction(0)]))
     pts = sorted(set(pts)) or [Fraction(0)]
